@@ -76,8 +76,29 @@ func VerifyFunc(p *Prog, fn *ssa.Function) (res *FuncResult) {
 	st := NewState()
 	ex.oldState = NewState()
 	ct := fr.contract
+	isPkgInit := fn.Synthetic == "package initializer"
+	if isPkgInit {
+		// the initializer runs once: its guard is false on entry
+		for _, m := range fn.Pkg.Members {
+			if g, ok := m.(*ssa.Global); ok && g.Name() == "init$guard" {
+				gv := ex.load(st, Loc{Obj: ex.globalObj(g)}, g.Type().(*types.Pointer).Elem())
+				if gv.K == KScalar {
+					ex.assume(True, Not(gv.T))
+				}
+			}
+		}
+		ex.pkgInitOf = fn.Pkg.Pkg.Path()
+	} else {
+		for _, gi := range p.cs.GlobalInvs {
+			c := &SCtx{ex: ex, pkg: gi.Pkg, env: map[string]*Val{}, cur: st}
+			ex.assume(True, c.bool(gi.Clause.Expr))
+		}
+	}
 	if ct != nil {
 		for _, c := range ct.Requires {
+			if c.Cfg != "" && c.Cfg != p.cfgName {
+				continue
+			}
 			g := ex.evalBool(fr, c.Expr, st, nil, ex.paramEnv(fr))
 			ex.assume(True, g)
 		}
@@ -136,6 +157,22 @@ func (ex *Exec) paramEnv(fr *Frame) map[string]*Val {
 
 func (ex *Exec) checkPost(fr *Frame, st *State, vs []*Val, k int, pos string) {
 	ct := fr.contract
+	if ex.pkgInitOf != "" {
+		for i, gi := range ex.p.cs.GlobalInvs {
+			if gi.Pkg != ex.pkgInitOf {
+				continue
+			}
+			c := &SCtx{ex: ex, pkg: gi.Pkg, env: map[string]*Val{}, cur: st, goal: true}
+			cj := c.conjuncts(gi.Clause.Expr)
+			for j, x := range cj {
+				nm := fmt.Sprintf("globalinv[%s]@return[%d]", clauseLabel(gi.Clause, i), k)
+				if len(cj) > 1 {
+					nm = fmt.Sprintf("globalinv[%s.%d]@return[%d]", clauseLabel(gi.Clause, i), j+1, k)
+				}
+				ex.oblige(st, "globalinv", nm, x.T, gi.Clause.Tags, pos, "globalinv "+x.Text)
+			}
+		}
+	}
 	if ct == nil {
 		return
 	}
@@ -161,6 +198,9 @@ func (ex *Exec) checkPost(fr *Frame, st *State, vs []*Val, k int, pos string) {
 	}
 	for i, c := range ct.Ensures {
 		if c.AtReturn > 0 && c.AtReturn != k {
+			continue
+		}
+		if c.Cfg != "" && c.Cfg != ex.p.cfgName {
 			continue
 		}
 		cj := ex.goalCtx(fr, st, ex.oldState, env).conjuncts(c.Expr)
